@@ -147,14 +147,14 @@ func (q PathQuery) reach(from ssa.Instruction, visit func(ssa.Instruction) bool)
 				stack = append(stack, pt{c.Block(), instrIndex(c) + 1, p.fr.parent, cor})
 				blocked = true
 				break
-			} else if isRet && depth > 0 && b.Parent() != q.Fn && b.Parent().Parent() == nil {
+			} else if ret, isRet := in.(*ssa.Return); isRet && depth > 0 && b.Parent() != q.Fn && b.Parent().Parent() == nil {
 				// the exploration started inside a callee of Fn (an instruction found there by FindInstrs): it goes on
 				// after every call of that callee in Fn and the functions Fn reaches
 				for _, m := range Family(q.Fn, depth) {
 					for _, mb := range m.Blocks {
 						for mi, x := range mb.Instrs {
 							if c, ok := x.(*ssa.Call); ok && StaticFn(c.Common()) == b.Parent() {
-								stack = append(stack, pt{mb, mi + 1, nil, nil})
+								stack = append(stack, pt{mb, mi + 1, nil, corFor(c, ret)})
 							}
 						}
 					}
@@ -665,6 +665,31 @@ func InstrsDeep(fn *ssa.Function, f func(ssa.Instruction)) {
 	for _, m := range Family(fn, DeepFind) {
 		Instrs(m, f)
 	}
+}
+
+// CallerValues: like CallerValue for a helper called from several sites of fn's family: the argument passed at each
+// site (one level).  nil when v is not a parameter of such a helper.
+func CallerValues(fn *ssa.Function, v ssa.Value) []ssa.Value {
+	prm, ok := SkipConv(v).(*ssa.Parameter)
+	if !ok || prm.Parent() == fn || prm.Parent() == nil {
+		return nil
+	}
+	h := prm.Parent()
+	idx := -1
+	for k, hp := range h.Params {
+		if hp == prm {
+			idx = k
+		}
+	}
+	var out []ssa.Value
+	for _, m := range Family(fn, DeepFind) {
+		Instrs(m, func(in ssa.Instruction) {
+			if ci, ok := in.(ssa.CallInstruction); ok && StaticFn(ci.Common()) == h && idx >= 0 && idx < len(ci.Common().Args) {
+				out = append(out, ci.Common().Args[idx])
+			}
+		})
+	}
+	return out
 }
 
 // CallerValue reads a value of a helper in terms of fn: a parameter of a function that fn's family calls from
